@@ -192,26 +192,48 @@ theorem falsy_entity_dropped :
 /-! ## writers -/
 
 /-- `Ent.flat` (what IterDXFWriter.write emits for one entity) is the flattening of its groups -/
-private theorem flat_eq (e : Ent) : e.flat = e.groups.flatten := by
+private theorem flat_eq (e : Ent) (h : e.exportable = true) : e.flat = e.groups.flatten := by
   obtain ⟨main, subs, seqend⟩ := e
-  cases seqend <;> simp [Ent.flat, Ent.groups]
+  by_cases hi : dxftype main = "INSERT" ∧ subs.isEmpty = true
+  · have hs : subs = [] := by simpa using hi.2
+    subst hs
+    cases seqend with
+    | none => simp [Ent.flat, Ent.groups, hi.1]
+    | some q => simp [Ent.exportable, hi.1] at h
+  · have hi' : ¬(dxftype main = "INSERT" ∧ subs.isEmpty = true) := hi
+    simp only [Ent.flat, if_neg hi']
+    cases seqend <;> simp [Ent.groups]
 
-private theorem flatMap_flat (es : List Ent) : es.flatMap Ent.flat = flatEnts es := by
+private theorem flatMap_flat (es : List Ent) (h : ∀ e ∈ es, e.exportable = true) : es.flatMap Ent.flat = flatEnts es := by
   induction es with
   | nil => rfl
   | cons e r ih =>
-    simp only [flatEnts, List.flatMap_cons, List.flatten_append] at ih ⊢
-    rw [flat_eq, ih]
+    have ih' := ih (fun x hx => h x (by simp [hx]))
+    simp only [flatEnts, List.flatMap_cons, List.flatten_append] at ih' ⊢
+    rw [flat_eq e (h e (by simp)), ih']
 
-/-- iterdxf exporter: the written file is exactly the file whose ENTITIES section consists of the written entities,
-    in front of it the copied sections, behind it the copied OBJECTS section (if any) - for every source prefix and
-    every sequence of written entities. -/
-theorem export_structure (pre : List Section) (written : List Ent) (objects : Option Section) :
-    exportFile pre written objects = fileOf pre written objects.toList := by
+/-- iterdxf exporter without the second sub-entity loop (.scratch/fixes/C08-3.diff): the written file is exactly the
+    file whose ENTITIES section consists of the written entities, in front of it the copied sections, behind it the
+    copied OBJECTS section (if any) - for every source prefix and every sequence of written entities. -/
+theorem export_structure (pre : List Section) (written : List Ent) (objects : Option Section)
+    (h : ∀ e ∈ written, e.exportable = true) :
+    exportFile false pre written objects = fileOf pre written objects.toList := by
   rw [fileOf_eq]
   unfold exportFile
-  rw [flatMap_flat]
+  simp only [Bool.false_eq_true, if_false, List.append_nil]
+  rw [flatMap_flat written h]
   cases objects <;> simp [renderSec]
+
+/-- one POLYLINE with a vertex and SEQEND -/
+def polyEnt : Ent := ⟨[⟨0, "POLYLINE"⟩, ⟨5, "A"⟩], [[⟨0, "VERTEX"⟩, ⟨5, "B"⟩]], some [⟨0, "SEQEND"⟩, ⟨5, "C"⟩]⟩
+
+/-- the exporter of the unchanged tree writes the sub-entities twice: every reader gets the copies back as stand-alone
+    entities (here: iterdxf.modelspace on the exported file of one POLYLINE). -/
+theorem export_duplicates_subs :
+    iterModelspace cfgS (exportFile true [] [polyEnt] none) =
+      .ok [polyEnt, Ent.single [⟨0, "VERTEX"⟩, ⟨5, "B"⟩], Ent.single [⟨0, "SEQEND"⟩, ⟨5, "C"⟩]] ∧
+    iterModelspace cfgS (exportFile false [] [polyEnt] none) = .ok [polyEnt] := by
+  decide
 
 /-- what an r12writer call may contain -/
 def r12CallOK (cfg : Cfg) : R12Call → Bool
@@ -410,6 +432,7 @@ def sampleFile : List Tag :=
 #guard EntsWF cfgS (Spec.linked cfgS sampleFile) && entGroupsOK (Spec.linked cfgS sampleFile)
 #guard r12CallOK cfgS (.polyline [⟨8, "0"⟩, ⟨66, "1"⟩] [[⟨10, "1.0"⟩], [⟨10, "2.0"⟩]]) && r12CallOK cfgS (.simple "LINE" [⟨8, "0"⟩])
 #guard wtagOK (fun c => c == 10) (.vertex 10 ["1.0", "2.0", "3.0"])
+#guard polyEnt.exportable && (Spec.linked cfgS sampleFile).all Ent.exportable
 
 example : ReqLinked cfgS := ⟨rfl, rfl, rfl, rfl, rfl⟩
 
